@@ -18,7 +18,8 @@ open Proto SigGen
       table                                          (tableRawB, batched) -> ds:ev:shg:src,… <normalised weights> <weight sum> | ERR
       vrel   <ds> <ra|dec|sin_dec|o<field id>> <lo> <hi>   (one line per configured (dataset, field); the model relocates and decides)
       akw    <requested totals of the calls sharing one sig_kwargs dictionary> -> mean handed to the generator per call (- = not called)
-      cache  <ops: u = use, c<m> = change_shg_mgr(m)> (generator constructed on manager 0) -> manager whose candidates each op works with
+      cache  <ops: u = use, c<m> = change_shg_mgr(object m), m<m> = source replaced in place in object m> -> obj:ver in use per op
+      amerge <count:len|x per dataset> <ds:k per signal entry> -> count:len per dataset | ERR   (Analysis merge)
       agg    <counts> <number of per-dataset generators>  -> n;key=count,… | ERR   (aggregation after the fix)
       gen    <right01> <n> <us>                      -> n;used;ds=row:ra:dec:sin_dec,…|ds=… | ERR   (generateEv)
       mu2flux <mu> <Phi0 per source> <unit per source> -> per-source fluxes;total
@@ -106,8 +107,21 @@ def step (s : St) (line : String) : St × String :=
   | ["akw", rs] =>
       (s, fListD (fun o => match o with | some (m : Int) => toString m | none => "x") (kwHistory kwCall none (pList pI rs)))
   | ["cache", ops] =>
-      let os : List GenOp := (pList id ops).map fun t => if t == "u" then GenOp.use else GenOp.changeMgr ((t.drop 1).toString.toNat!)
-      (s, fListD toString (genRun genStep ⟨0, 0⟩ os))
+      let os : List GenOp := (pList id ops).map fun t =>
+        if t == "u" then GenOp.use
+        else if t.startsWith "c" then GenOp.changeMgr ((t.drop 1).toString.toNat!)
+        else GenOp.mutate ((t.drop 1).toString.toNat!)
+      (s, fListD (fun p => s!"{p.1}:{p.2}") (genRun genStep ⟨0, fun _ => 0, (0, 0)⟩ os))
+  | ["amerge", st, sig] =>
+      let pe (t : String) : Nat × Option Nat := match t.splitOn ":" with
+        | [a, b] => (a.toNat!, if b == "x" then none else some b.toNat!)
+        | _ => (0, none)
+      let ps (t : String) : Nat × Nat := match t.splitOn ":" with
+        | [a, b] => (a.toNat!, b.toNat!)
+        | _ => (0, 0)
+      match mergeSig (pList pe st) (pList ps sig) with
+      | none => (s, "ERR")
+      | some r => (s, fListD (fun e => s!"{e.1}:{match e.2 with | some l => toString l | none => "x"}") r)
   | ["agg", cs, k] =>
       let gens : List DsGen := (List.range (pN k)).map fun j c =>
         if c < 0 then none else some (c.toNat, [(j, c.toNat)])
